@@ -12,12 +12,12 @@ using namespace vf;
 
 namespace {
 
-struct Prog { int route; int nconn; int tsize; int udp; int close_order; int lat; };
+struct Prog { int route; int nconn; int tsize; int udp; int close_order; int lat; int reuse; /* 1: the first connection's two socket objects are closed and used for another connection */ };
 // route: 0 loss-free, 1 lossy (tail-drop queue); tsize index; udp: 0 none, 1 small both ways, 2 mixed sizes incl. 65507; lat: 0 1ms, 1 700ms (timestamps cross seconds)
 int const TSIZES[] = { 1, 3000, 20000 };
-std::string prog_str(Prog const& p) { return fmt("route=%s conns=%d tcp-bytes=%d udp=%d close-order=%d latency=%s", p.route ? "lossy" : "loss-free", p.nconn, TSIZES[p.tsize], p.udp, p.close_order, p.lat ? "700ms" : "1ms"); }
+std::string prog_str(Prog const& p) { return fmt("route=%s conns=%d tcp-bytes=%d udp=%d close-order=%d latency=%s%s", p.route ? "lossy" : "loss-free", p.nconn, TSIZES[p.tsize], p.udp, p.close_order, p.lat ? "700ms" : "1ms", p.reuse ? " +socket-reuse" : ""); }
 
-struct Expect { int64_t t; bool tcp; std::string src, dst; int sport, dport; std::string payload; bool eof; };
+struct Expect { int64_t t; bool tcp; std::string src, dst; int sport, dport; std::string payload; bool eof; bool new_connection = false; /* marker: a SYN from client port sport was seen: sequence numbers of that connection start over */ };
 
 struct PcapRec { uint32_t sec, usec, incl, orig; std::string ip; };
 
@@ -100,12 +100,24 @@ Res run_prog(Prog const& p, std::string const& file)
 		}
 		sim.run();
 		for (auto& k : conns) { if (k->rs != k->wc || k->rc != k->ws) fail(fmt("transfer: a TCP transfer of the program did not complete (%zu/%zu, %zu/%zu)", k->rs.size(), k->wc.size(), k->rc.size(), k->ws.size())); }
+		if (p.reuse && !conns.empty()) {
+			// close the first connection's two socket objects and use the same objects for a new connection with new data
+			Conn* k = conns[0].get(); error_code ig; k->c->close(ig); k->s->close(ig); sim.run();
+			k->wc.assign(777, 0); k->ws.assign(333, 0); for (size_t j = 0; j < k->wc.size(); ++j) k->wc[j] = pbyte(40, int64_t(j)); for (size_t j = 0; j < k->ws.size(); ++j) k->ws[j] = pbyte(41, int64_t(j));
+			k->sc = k->ss = 0; k->rc.clear(); k->rs.clear(); k->c_closed = k->s_closed = false;
+			k->c->open(ip::tcp::v4()); k->c->bind(ip::tcp::endpoint(addr("10.0.0.1"), 4000));
+			k->a->async_accept(*k->s, [&, k](error_code const& ec) { if (ec) return; writer(k, false); reader(k, false); });
+			k->c->async_connect(ip::tcp::endpoint(addr("10.0.1.1"), 6000), [&, k](error_code const& ec) { if (ec) return; writer(k, true); reader(k, true); });
+			sim.run();
+			if (k->rs != k->wc || k->rc != k->ws) fail(fmt("transfer: the connection on the reused socket objects did not complete (%zu/%zu, %zu/%zu)", k->rs.size(), k->wc.size(), k->rc.size(), k->ws.size()));
+		}
 		{ error_code ig; ua.cancel(ig); ub.cancel(ig); for (auto& k : conns) { k->c->close(ig); k->s->close(ig); k->a->close(ig); } }
 		sim.run();
 		// what the probes saw at the head of the outgoing routes, in transmission order (closing segments of the clean-up included)
 		std::map<std::string, int> seen_seq;
 		for (auto& r : w.log) {
 			++R.transitions;
+			if (r.type == sim::aux::packet::type_t::syn) { Expect m; m.t = r.t; m.tcp = true; m.eof = false; m.new_connection = true; size_t c0 = r.from.rfind(':'); m.src = r.from.substr(0, c0); m.sport = std::atoi(r.from.c_str() + c0 + 1); m.dport = m.sport + 2000; expect.push_back(m); continue; }
 			bool udp = r.overhead == 28 && r.type == sim::aux::packet::type_t::payload;
 			bool tcpd = r.overhead == 40 && (r.type == sim::aux::packet::type_t::payload || r.type == sim::aux::packet::type_t::error);
 			if (!udp && !tcpd) continue;
@@ -128,14 +140,16 @@ Res run_prog(Prog const& p, std::string const& file)
 	if (le32(u + 8) != 0 || le32(u + 12) != 0) fail("header: thiszone/sigfigs not zero");
 	if (le32(u + 16) < 65535) fail(fmt("header: snaplen %u", le32(u + 16)));
 	if (le32(u + 20) != 101) fail(fmt("header: link type %u, expected 101 (raw IP)", le32(u + 20)));
-	size_t off = 24; size_t idx = 0; uint64_t last_ts = 0;
+	size_t off = 24; size_t idx = 0; size_t nrec = 0; uint64_t last_ts = 0;
 	std::map<std::string, uint32_t> sent_bytes; // per TCP direction
 	while (off < d.size()) {
 		if (off + 16 > d.size()) { fail(fmt("framing: truncated record header at offset %zu", off)); break; }
 		uint32_t sec = le32(u + off), usec = le32(u + off + 4), incl = le32(u + off + 8), orig = le32(u + off + 12); off += 16;
 		if (off + incl > d.size()) { fail(fmt("framing: record %zu claims %u bytes but only %zu remain", idx, incl, d.size() - off)); break; }
-		const unsigned char* ipk = u + off; off += incl; ++R.records;
-		if (idx >= expect.size()) { fail(fmt("extra: record %zu has no counterpart among the %zu packets the probes saw", idx, expect.size())); break; }
+		const unsigned char* ipk = u + off; off += incl; ++R.records; ++nrec;
+		while (idx < expect.size() && expect[idx].new_connection) { // a new connection between these two ports: both directions count from zero again
+			sent_bytes.erase(fmt("10.0.0.1:%d>%d", expect[idx].sport, expect[idx].dport)); sent_bytes.erase(fmt("10.0.1.1:%d>%d", expect[idx].dport, expect[idx].sport)); ++idx; }
+		if (idx >= expect.size()) { fail(fmt("extra: record %zu has no counterpart among the %zu packets the probes saw", nrec, expect.size())); break; }
 		Expect const& e = expect[idx];
 		std::string where = fmt("record %zu (%s %s:%d -> %s:%d, %zu payload bytes, sent at %lld ns)", idx, e.tcp ? (e.eof ? "TCP closing segment" : "TCP segment") : "UDP datagram", e.src.c_str(), e.sport, e.dst.c_str(), e.dport, e.payload.size(), (long long)e.t);
 		size_t hdr = 20 + (e.tcp ? 20 : 8);
@@ -163,6 +177,7 @@ Res run_prog(Prog const& p, std::string const& file)
 		if (std::string(reinterpret_cast<const char*>(ipk + hdr), incl - hdr) != e.payload) fail("payload: " + where + ": payload bytes differ from what was sent");
 		++idx;
 	}
+	while (idx < expect.size() && expect[idx].new_connection) ++idx;
 	if (idx < expect.size() && R.fails.empty()) fail(fmt("missing: the file has %zu records but the probes saw %zu packets put on the wire (first missing: %s %s:%d at %lld ns)", idx, expect.size(), expect[idx].tcp ? "TCP" : "UDP", expect[idx].src.c_str(), expect[idx].sport, (long long)expect[idx].t));
 	R.summary = fmt("%zu records, %zu expected, %llu retransmissions", size_t(R.records), expect.size(), (unsigned long long)R.retrans);
 	return R;
@@ -174,7 +189,7 @@ struct PcapEngine : Engine
 	uint64_t units(Args const& a) override
 	{
 		progs.clear();
-		for (int r = 0; r < 2; ++r) for (int n = 1; n <= (a.thorough() ? 3 : 2); ++n) for (int t = 0; t < 3; ++t) for (int u = 0; u < 3; ++u) for (int co = 0; co < 2; ++co) for (int l = 0; l < 2; ++l) progs.push_back(Prog{ r, n, t, u, co, l });
+		for (int r = 0; r < 2; ++r) for (int n = 1; n <= (a.thorough() ? 3 : 2); ++n) for (int t = 0; t < 3; ++t) for (int u = 0; u < 3; ++u) for (int co = 0; co < 2; ++co) for (int l = 0; l < 2; ++l) for (int ru = 0; ru < 2; ++ru) progs.push_back(Prog{ r, n, t, u, co, l, ru });
 		return progs.size();
 	}
 	void run_unit(uint64_t u, Ctx& ctx) override
